@@ -54,4 +54,43 @@ PROPS = {
         "assumptions": ["documents shorter than 2^32 bytes", "Lua 5.5 syntax level for generated documents"],
         "technique": "proof about the text pipeline + correspondence tie + property oracle search for the rule set (partial)",
     },
+    "C05": {
+        "harness": "vh-fmt",
+        "level_text": "Partial. The formatter is IR construction (about 10 k lines of rules, not modelled) followed by the printer. "
+                      "Kernel-checked theorems about an executable model of the IR and the printer (print_doc with its state, "
+                      "fits_impl, has_hard_line, print_fill, print_align_group, line suffixes, pending indentation): for every "
+                      "configuration, fuel and IR without IfBreak/LineSuffix the printer's output has exactly the non-whitespace bytes "
+                      "of the IR's text leaves in document order (it can neither drop, reorder nor invent text; groups, indents, fills "
+                      "and align groups in both modes), an IR without text prints whitespace only, and ir_flat_width sees text lengths "
+                      "only. Tie: every run the real printer (hook H5) and the model print the IRs the real formatter builds for the "
+                      "corpus and seeded random IRs over all node kinds, byte for byte. Whether the rule set puts every token into the "
+                      "IR is decided by search: reformat_lua_code on generated valid Lua, the bundled std annotation files and "
+                      "erroneous inputs x configurations must reparse, keep the normalised token sequence and the comment structure, "
+                      "and return erroneous input unchanged.",
+        "level_note": "Trusted: Lean kernel, harness (generator, parser-based token normaliser), correspondence run as the tie, the "
+                      "hook's ir_to_sexpr exporter (source nodes/tokens are resolved to the text they print). Not proved: IfBreak "
+                      "selection and LineSuffix reordering in print_atoms (exercised by the tie only); IR construction (search only).",
+        "trusted_base": ["correspondence run (Printer model vs Printer::print through verif::format_to_ir / ir_to_sexpr / print_ir)",
+                         "token normaliser of the harness (statement ';', trailing table separators, quote style, single-argument call parentheses, blanks inside comments are the only differences ignored)"],
+        "assumptions": ["Lua 5.5 syntax level for all inputs", "indent string and newline string of the configuration are whitespace (tabs/spaces, \\n or \\r\\n)"],
+        "technique": "proof about the printer + correspondence tie + property oracle search for the rule set (partial)",
+    },
+    "C06": {
+        "harness": "vh-fmt",
+        "level_text": "Partial. fmt(fmt x) = fmt x is a property of the whole formatter, whose rule set (IR construction, which also "
+                      "reads the layout of the source) is not modelled: it is decided by search only (generated valid Lua, std "
+                      "annotation files, erroneous and mutated inputs x configurations, two passes compared), and the search does find "
+                      "inputs that need two passes; those are listed as open known findings keyed by predicates over the input. "
+                      "Kernel-checked theorems cover the printer half of the mechanism 'layout decisions are made from token widths "
+                      "only': fits_impl (any stack, break map, width, fuel), has_hard_line/the group decision of print_doc, and "
+                      "ir_flat_width (alignment columns) are invariant under replacing every text of the IR by a text of the same "
+                      "length. Same model and tie as C05 (real and random IRs, model printer vs real printer byte for byte).",
+        "level_note": "Trusted: Lean kernel, harness, correspondence run. The theorems do not imply idempotence; they remove the "
+                      "printer as a source of pass-to-pass differences for IRs of equal shape. The open findings are source-layout "
+                      "sensitivity of the rule set (multi-line tokens, multi-line tables/calls/parameter lists, re-breaking at the "
+                      "width limit).",
+        "trusted_base": ["correspondence run (Printer model vs Printer::print through the verif hook)"],
+        "assumptions": ["Lua 5.5 syntax level for all inputs"],
+        "technique": "proof about the printer's decision procedures + correspondence tie + property oracle search (partial)",
+    },
 }
